@@ -40,26 +40,26 @@ def main():
     summary = dict(patch=patch, tier=tier)
     try:
         subprocess.check_call(["rsync", "-a", "--exclude", ".git", "/repo/", repo + "/"])
-        p = subprocess.run(["git", "apply", "--whitespace=nowarn", patch], cwd=repo, stdout=subprocess.PIPE, stderr=subprocess.STDOUT, text=True)
+        p = subprocess.run(["git", "apply", "--whitespace=nowarn", patch], cwd=repo, stdout=subprocess.PIPE, stderr=subprocess.STDOUT, text=True, errors="replace")
         if p.returncode != 0:
             print("PATCH DOES NOT APPLY:", p.stdout)
             summary["applies"] = False
             print(json.dumps(summary)); return 2
         summary["applies"] = True
-        b = subprocess.run("go build ./... && go build -tags verif ./...", shell=True, cwd=repo, env=env, stdout=subprocess.PIPE, stderr=subprocess.STDOUT, text=True)
+        b = subprocess.run("go build ./... && go build -tags verif ./...", shell=True, cwd=repo, env=env, stdout=subprocess.PIPE, stderr=subprocess.STDOUT, text=True, errors="replace")
         summary["builds"] = b.returncode == 0
         if b.returncode != 0:
             print("BUILD FAILS:", b.stdout[-1500:])
             print(json.dumps(summary)); return 2
         if not skip_suite:
-            t = subprocess.run(["go", "test", "-vet=off", "-count=1", "./..."], cwd=repo, env=env, stdout=subprocess.PIPE, stderr=subprocess.STDOUT, text=True)
+            t = subprocess.run(["go", "test", "-vet=off", "-count=1", "./..."], cwd=repo, env=env, stdout=subprocess.PIPE, stderr=subprocess.STDOUT, text=True, errors="replace")
             summary["suite_passes"] = t.returncode == 0
             print("suite:", "PASS" if t.returncode == 0 else "FAIL\n" + t.stdout[-1500:])
         env2 = dict(env); env2["VERIF_REPO"] = repo; env2["VERIF_NO_EVIDENCE"] = "1"
 
         def run(pid):
             t0 = time.time()
-            r = subprocess.run([os.path.join(VERIF, "check"), pid, "--tier", tier], cwd=VERIF, env=env2, stdout=subprocess.PIPE, stderr=subprocess.PIPE, text=True)
+            r = subprocess.run([os.path.join(VERIF, "check"), pid, "--tier", tier], cwd=VERIF, env=env2, stdout=subprocess.PIPE, stderr=subprocess.PIPE, text=True, errors="replace")
             viol = [l for l in r.stdout.splitlines() if l.startswith("VIOLATION")]
             first = ""
             m = re.search(r"---- violation in step (\S+) ----\n(.*)", r.stderr)
